@@ -9,6 +9,8 @@ int  vp_srv_port(void);                                  /* TCP port the server 
 int  vp_cli_connect(const unsigned char* data, int n);   /* a client connects and sends n bytes; returns a client handle (or -1) */
 int  vp_cli_recv(int h, unsigned char* out, int cap);    /* everything the server has sent on that connection (until it closed) */
 void vp_cli_close(int h);                                /* the client closes its end */
+int  vp_srv_accepted(int h);                             /* 1 when the server has accepted the connection (model only; natively 1) */
+void vp_cli_send(int h, const unsigned char* data, int n);  /* the client sends more bytes */
 int  vp_srv_closed_by_server(int h);                     /* 1 when the server side of the connection has been closed (model only; natively 1 at EOF) */
 #ifdef __cplusplus
 }
